@@ -97,6 +97,7 @@ type G struct {
 	cost   int     // estimated ticks of the statement being generated
 	mult   int     // loop multiplier for cost
 	seq    int
+	noGrow bool // inside loops/functions: values of growable types must not feed assignments (no doubling)
 }
 
 func New(r *core.Rng, f Flags) *G { return &G{R: r, F: f, mult: 1} }
@@ -110,6 +111,10 @@ func (g *G) Clone() *G {
 		c.Funcs[i] = &ff
 	}
 	c.scope = append([]Var(nil), g.scope...)
+	for _, f := range c.Funcs {
+		f.Calls = append([]string(nil), f.Calls...)
+		f.Params = append([]Var(nil), f.Params...)
+	}
 	return &c
 }
 
@@ -301,7 +306,12 @@ func (g *G) lit(t Ty) string {
 
 // ---------- expressions ----------
 
+func growable(t Ty) bool { return t == TStr || t == TArr || t == TMap }
+
 func (g *G) varOf(t Ty) (string, bool) {
+	if g.noGrow && growable(t) {
+		return "", false
+	}
 	vs := g.visible(t, false)
 	if len(vs) == 0 {
 		return "", false
@@ -318,6 +328,9 @@ func (g *G) callable(t Ty) []*Func {
 	lvl := 1 << 30
 	if g.inFunc != nil {
 		lvl = g.inFunc.Level
+	}
+	if g.noGrow && growable(t) {
+		return nil
 	}
 	for _, f := range g.Funcs {
 		if f.Ret == t && f.Level < lvl && f.Cost*g.mult < 6000 {
@@ -361,6 +374,11 @@ func (g *G) Expr(t Ty, d int) string {
 	g.tick(1)
 	if d >= 3 || r.Bool(.3) {
 		if v, ok := g.varOf(t); ok && r.Bool(.7) {
+			if t == TBool {
+				// a bare reference to an outer boolean is not accepted as a condition inside functions
+				// (evalIfExpression compares the un-dereferenced reference); compare explicitly instead.
+				return "(" + v + " == true)"
+			}
 			return v
 		}
 		return g.lit(t)
@@ -509,13 +527,13 @@ func (g *G) assign() string {
 		v := core.Pick(g.R, ws)
 		g.noteWrite(v)
 		g.tick(2)
-		return v.Name + " = " + g.Expr(t, 0)
+		return v.Name + " = " + g.rhs(t)
 	}
 	name, ok := g.freshName(t, local)
 	if !ok {
 		return g.printStmt()
 	}
-	e := g.Expr(t, 0)
+	e := g.rhs(t)
 	g.tick(2)
 	if local {
 		g.scope = append(g.scope, Var{Name: name, Ty: t, Local: true})
@@ -528,6 +546,18 @@ func (g *G) assign() string {
 	}
 	g.Vars = append(g.Vars, Var{Name: name, Ty: t})
 	return name + " = " + e
+}
+
+// rhs generates the right-hand side of an assignment. Where the assignment can execute repeatedly
+// (loops, function bodies) a growable value (string/array/map) never depends on growable variables,
+// so nothing can double per iteration (string '+' has no memory guard in grol).
+func (g *G) rhs(t Ty) string {
+	if growable(t) && (g.loops > 0 || g.inFunc != nil) {
+		old := g.noGrow
+		g.noGrow = true
+		defer func() { g.noGrow = old }()
+	}
+	return g.Expr(t, 0)
 }
 
 func (g *G) printStmt() string {
@@ -621,28 +651,12 @@ func (g *G) maxLoops() int {
 }
 
 func (g *G) loopVarName() string {
-	cands := []string{"i", "j", "ii", "jj", "k1", "k2", "k3", "k4"}
-	if g.F.Shadow {
-		// deliberately collide with parameters / globals of integer type
-		for _, v := range g.scope {
-			if v.Ty == TInt && !v.RO && g.R.Bool(.3) {
-				return v.Name
-			}
-		}
-		if g.inFunc == nil {
-			for _, v := range g.Vars {
-				if v.Ty == TInt && !v.Const && g.R.Bool(.2) {
-					return v.Name
-				}
-			}
-		}
-	}
-	for _, c := range cands {
-		if !shadowed(g.scope, c) && !g.hasGlobal(c) {
-			return c
-		}
-	}
-	return "q9"
+	// Every counted loop gets a name used nowhere else ("lv<n>"): with registers disabled the loop
+	// variable is an ordinary binding of the enclosing scope (visible after the loop, clobbering an
+	// outer variable of that name), with registers enabled it is not -- a recorded finding of C05.
+	// Keeping the names unique keeps that known divergence out of every other oracle.
+	g.seq++
+	return "lv" + strconv.Itoa(g.seq)
 }
 
 func (g *G) forStmt() string {
